@@ -124,6 +124,23 @@ def r02_1(ctx):
                 n.poly(dzc[0].value.args[1]) == expected("self.degree-1")
     ctx.check(okz, "DirectCollocation algebraic values: one column per collocation time (z_start + degree-1 helpers)", detail="layout of Zc/zr",
               expected="Zc.append(horzcat(z0, zc)); zr the same; zc = variable(nz, degree-1)", found="; ".join(ast.unparse(a) for a in apps["Zc"] + apps["zr"]), fi=f)
+    # the first algebraic value of an integration step is the interval's own z only for the first step; later steps get a fresh
+    # variable whatever the degree (C02-r12-1 shared one value among all M steps when degree == 1).  Judged when written as a
+    # conditional expression over the step index; other shapes are left to the layout rules.
+    if okz and isinstance(apps["Zc"][0].args[0].args[0], ast.Name):
+        dz0 = [d for d in sc.defs.get(apps["Zc"][0].args[0].args[0].id, []) if d.kind == "assign"]
+        if len(dz0) == 1 and isinstance(dz0[0].value, ast.IfExp):
+            lv_ = loop_var(loop_context(sc, n, dz0[0].stmt), "M")
+            t_ = dz0[0].value.test
+            names_ = {x.id for x in ast.walk(t_) if isinstance(x, ast.Name)}
+            okz0 = lv_ is not None and names_ == {lv_} and not any(isinstance(x, ast.Attribute) for x in ast.walk(t_)) and is_call_to(dz0[0].value.orelse, "variable")
+            if okz0:
+                try:
+                    okz0 = [bool(eval(compile(ast.Expression(t_), "<t>", "eval"), {"__builtins__": {}}, {lv_: q})) for q in range(4)] == [True, False, False, False]
+                except Exception:
+                    okz0 = False
+            ctx.check(okz0, "DirectCollocation step start algebraic value", detail="integration steps after the first share the interval's algebraic value under some configuration",
+                      expected="z0 = z if i==0 else a fresh variable (condition on the step index only)", found=ast.unparse(dz0[0].value), fi=f, node=dz0[0].stmt)
     # U: one per k
     ua = [a for a in walk_no_nested(f.node) if is_call_to(a, "append", "self.U")]
     ctx.check(len(ua) == 1 and [li.kind for li in loop_context(sc, n, ua[0])] == ["N"], "DirectCollocation one control per interval", detail="U", expected="self.U.append(...) once per k",
